@@ -3,6 +3,7 @@ import Canopy.Proof.DexInv
 import Canopy.Proof.DexPoints
 import Canopy.Proof.DexHold
 import Canopy.Proof.DexRun
+import Canopy.Proof.DexSettle
 /-!
 # C20 — escrow, order-book and AMM accounting is exact
 
@@ -182,8 +183,7 @@ theorem handlers_pinned : handlerDigests = [
   ("Hash", "f11666f6dd15f7ea"),
   ("Copy", "8e3cc01a4b37f0a7"),
   ("IsEmpty", "882a1af3e8ace04e"),
-  ("CopyOrders", "6bb4dd8461d8adc3"),
-  ("HashKey", "1545ec2bd458e28e")] := by decide
+  ("CopyOrders", "6bb4dd8461d8adc3")] := by decide
 
 /-- the literals the model and the frame argument use are the values in `fsm/key.go` / `lib/config.go` today:
 `MaxChainId`, the reserved ids of `checkChainId`, and the three pool-id addends (escrow ids start at 65535, above
@@ -517,6 +517,42 @@ theorem root_fallback_witness :
        (match dexWithdraw s1 2 { percent := 100, addr := addrA, id := [] } with
         | .error .PointHolderNotFound => true
         | _ => false)
+     | .error _ => false) = true := by decide
+
+/-!
+# Part 6 — every order of a remote batch has its own payout slot
+
+`HandleDexBatchOrders` executes the orders in hash-shuffled order, stores each result under the order's key
+(`result[order.Key]`) and then pays every order `result[key]`. The key is the hash of
+`blockHash ‖ be64(index) ‖ proto(order without its id)`: two orders with the same address, amount and limit differ in
+the index only. The model's key is that hash paired with the index; this is sound exactly because the index enters the
+hash at full 64-bit width — pinned here to the source — so that the hashed bytes determine the index.
+-/
+
+/-- `HashKey` writes the index with `binary.BigEndian.PutUint64(idxBz, uint64(index))`: no narrowing conversion -/
+theorem hashKey_source : src_HashKey =
+    "bz, _ := Marshal(x); idxBz := make([]byte, 8); binary.BigEndian.PutUint64(idxBz, uint64(index)); data := make([]byte, 0, len(blockHash) + len(idxBz) + len(bz)); data = append(data, blockHash...); data = append(data, idxBz...); data = append(data, bz...); x.Key = crypto.HashString(data); return x.Key" := rfl
+
+/-- the hashed bytes of order `i` determine `i` (for every batch size a `uint64` can index), whatever the contents -/
+theorem order_key_index_injective {bh : Bytes} {i j : Nat} {o o' : LimitOrder} (hi : i < U64) (hj : j < U64)
+    (h : orderKeyInput bh i o = orderKeyInput bh j o') : i = j :=
+  orderKeyInput_index_injective hi hj h
+
+/-- **orders_settlement_exact.** For every remote batch (any number of orders, any repeated contents): one receipt per
+order; Σ receipts = the debit of the AMM ledger of the local reserve; at most `MaxOrdersSettledPerBlock` (250) orders are
+paid; the real liquidity pool is debited by exactly Σ receipts, so a ledger that started at the pool's balance ends at it. -/
+theorem orders_settlement_exact {s : State} {os : List LimitOrder} {bh : Bytes} {x y c : Nat} {r : State × Nat × Nat × List Nat}
+    (h : dexBatchOrders s os bh x y c = .ok r) :
+    r.2.2.2.length = os.length ∧ r.2.2.2.sum + r.2.2.1 = y ∧ (r.2.2.2.filter (· ≠ 0)).length ≤ 250 ∧
+    liqAmt r.1 c + r.2.2.2.sum = liqAmt s c ∧ (y = liqAmt s c → r.2.2.1 = liqAmt r.1 c) :=
+  dexBatchOrders_settlement h
+
+/-- non-vacuity (explicit keys instead of hashes): two orders with IDENTICAL contents get two slots and two different
+payouts (90, then 75 at the worse price); 165 leaves the reserve and 165 is what the two slots hold -/
+example :
+    (match ammLoop [((0, [1]), { amount := 100, requested := 1, addr := addrA, id := [] }),
+                    ((1, [2]), { amount := 100, requested := 1, addr := addrA, id := [] })] 0 1000 1000 [] with
+     | .ok r => decide (r = (1200, 835, [((0, [1]), 90), ((1, [2]), 75)]))
      | .error _ => false) = true := by decide
 
 end Canopy.C20
